@@ -114,10 +114,16 @@ def _encword(text: str, charset: str, mode: str) -> str:
 @st.composite
 def phrase(draw, profile):
     """Display-name / subject text as octets-in-latin-1 str."""
-    k = draw(st.integers(0, 11))
+    k = draw(st.integers(0, 13))
     ws = " ".join(draw(st.lists(st.sampled_from(WORDS), min_size=1, max_size=5)))
     if profile == "simple" or k <= 3:
         return ws
+    if k == 12:
+        # a character outside latin-1 AND quoted-specials in one value (seeded/C07-2: escaping applied
+        # before RFC 2047 encoding ends up inside the encoded word)
+        return _encword(draw(st.sampled_from(WORDSU)) + ' "q" \\ ' + ws, "utf-8", draw(st.sampled_from("BQ")))
+    if k == 13:
+        return _encword(draw(st.sampled_from(WORDSU)), "utf-8", "Q") + ' said "hi" \\ back ' + ws
     if k == 4:
         return _encword(draw(st.sampled_from(WORDSU)) + " " + ws, "utf-8", draw(st.sampled_from("BQ")))
     if k == 5:
@@ -165,6 +171,10 @@ def address(draw, profile):
     if k == 7:
         return "undisclosed-recipients:;"
     p = draw(phrase("simple" if profile == "simple" else "enc"))
+    if "=?" in p:
+        # an encoded word may not sit inside a quoted string and specials may not stand outside one:
+        # a display name cannot legally mix the two (phrase kinds 12/13 are for unstructured fields)
+        p = "".join(ch for ch in p if ch not in '"\\')
     if any(ch in p for ch in '",\\()<>:;@'):
         p = '"' + p.replace("\\", "\\\\").replace('"', '\\"') + '"'
     return f"{p} <{spec}>"
